@@ -43,6 +43,17 @@ NSHARDS = 12
 def attribute(t, evn, idx, inv):
     """Which property a level-A rejection belongs to."""
     p = "C09" if inv in ("QueueBounded",) else "C06" if inv == "AccNoDup" else EV_PROP.get(evn.get("ev"), "C06")
+    if (evn.get("ev") == "Send" and evn.get("pushed") and not evn.get("trunc")) or \
+            (evn.get("ev") == "TrySend" and evn.get("code") == 0):
+        # the queue length the hook saw under the lock does not continue the previous critical
+        # section's: items vanished (or appeared) between two critical sections without a hand-over
+        for prev in reversed(t["trace"][:idx]):
+            if prev.get("ev") in ("Take", "TakeEmpty", "Reset"):
+                break
+            if prev.get("ev") in ("Send", "TrySend") and "qlen" in prev:
+                if "qlen" in evn and evn["qlen"] != prev["qlen"] + 1:
+                    p = "C06"
+                break
     if evn.get("ev") == "CallerPanicked" and evn.get("op") == "send":
         p = "C08+C09"
     if evn.get("ev") == "Ret":
@@ -314,6 +325,7 @@ def run(ctx, prop):
     rc = ctx.replay_case()
     names = QUICK if ctx.quick else THOROUGH
     all_traces = []
+    crashed = []
     total_cases = 0
     for name in names:
         cfg = "Batcher_%s.cfg" % name
@@ -372,6 +384,19 @@ def run(ctx, prop):
             except subprocess.TimeoutExpired:
                 p.kill()
                 raise vlib.ToolError("batcher_replay timed out")
+            if p.returncode < 0 and os.path.exists(rep + ".cur"):
+                # the code under test took the whole process down (abort / a panic while unwinding):
+                # that is an observation, not a tool failure
+                ln = int(open(rep + ".cur").read().strip() or 0)
+                case = None
+                with open(cases) as f:
+                    for k, line in enumerate(f):
+                        if k + 1 == ln:
+                            case = json.loads(line)
+                            break
+                crashed.append({"config": name, "signal": -p.returncode, "line": ln, "case": case,
+                                "stderr": err[-600:]})
+                continue
             if p.returncode != 0:
                 raise vlib.ToolError("batcher_replay failed: %s %s" % (out[-2000:], err[-2000:]))
             rj = json.load(open(rep))
@@ -390,6 +415,15 @@ def run(ctx, prop):
                 mid = f.readline() if n > 2 else first
             ctx.sample({"config": name, "schedule": [[s["who"], s["act"]] for s in json.loads(mid)["steps"]]})
         os.remove(cases)
+    for c in crashed[:3]:
+        sched_ = [[s_["who"], s_["act"]] for s_ in (c["case"] or {}).get("steps", [])]
+        report("C08+C09", "the process was killed by signal %d while the real channel was driven through a schedule "
+               "of Batcher.tla (%s): a panic that escapes the channel or strikes while unwinding takes the "
+               "caller down; schedule: %s" % (c["signal"], c["config"], json.dumps(sched_)[:600]),
+               {"kind": "process-abort", "config": c["config"], "case": c["case"], "signal": c["signal"],
+                "stderr": c["stderr"]},
+               sig="%s:process-abort" % prop)
+    ctx.cov["replay_process_aborts"] = len(crashed)
     import time as _t
     vlib.log("[replay] %d schedules forced on the real code, %d traces kept for level A (%d divergent)" % (
         total_cases, len(all_traces), sum(1 for t in all_traces if t["divergent"])))
